@@ -110,7 +110,7 @@ func genC05Exec(r *wk.Rand, runID string, v1 bool) c05Exec {
 		}
 		in["tags"] = tags
 	}
-	modes := []string{"ok", "ok", "ok", "ok", "ok", "ok", "err", "undeclared", "badout", "panic"}
+	modes := []string{"ok", "ok", "ok", "ok", "ok", "ok", "err", "undeclared", "badout", "panic", "badpanic", "badundeclared"}
 	if v1 {
 		modes = []string{"ok", "ok", "err"}
 	}
@@ -235,7 +235,7 @@ func c05Burst(r *wk.Rand, tag string) ([][]rig.ExecSpec, map[string]c05Exec) {
 			in["n"] = "not a number"
 			e.invalid = "n is not a number"
 		case 2:
-			in["mode"] = wk.Pick(r, []string{"panic", "undeclared", "badout"})
+			in["mode"] = wk.Pick(r, []string{"panic", "undeclared", "badout", "badpanic", "badundeclared"})
 		case 3:
 			e.spec.StepID = "sig"
 			e.spec.NoSigCh = false
